@@ -69,7 +69,16 @@ void mon_reset(void)
     main_csr = _mm_getcsr() & ~0x3fu;
 }
 
-void mon_subscribed(int c, int g) { cond_observes[c][g] = true; PROBE("cond.observer_registered"); }
+static bool pred_observed(const proc *pr, int c);
+/* a change of the observer set: a waiter whose predicate is true at this moment was not made true by a signalled change */
+static void obs_changed(int c)
+{
+    for (int i = 0; i < W.np; i++)
+        if (PR[i].op == OP_CWAIT && !PR[i].finished && PR[i].obj == c && pred_now(i)) PR[i].cond_seen_false = false;
+}
+void mon_subscribed(int c, int g) { cond_observes[c][g] = true; PROBE("cond.observer_registered"); if (W.np > 0) obs_changed(c); }
+void mon_unsubscribed(int c, int g) { cond_observes[c][g] = false; PROBE("cond.observer_unregistered"); obs_changed(c); }
+bool mon_observes(int c, int g) { return cond_observes[c][g]; }
 
 void mon_before_event(void)
 {
@@ -687,7 +696,10 @@ void mon_after_event(void)
     }
 
     /* C13: remember whether a waiter's predicate has been false while it waited */
-    for (int i = 0; i < W.np; i++) if (PR[i].op == OP_CWAIT && !PR[i].finished && !pred_now(i)) PR[i].cond_seen_false = true;
+    for (int i = 0; i < W.np; i++) if (PR[i].op == OP_CWAIT && !PR[i].finished) {
+        if (!pred_now(i)) PR[i].cond_seen_false = true;
+        else if (!pred_observed(&PR[i], PR[i].obj)) PR[i].cond_seen_false = false;   /* became true while nobody forwards the change: not owed a wake-up */
+    }
 
     /* C11 */
     for (int i = 0; i < W.np; i++) if (!PR[i].finished) fold_buffer(&PR[i]);
@@ -712,6 +724,7 @@ void mon_after_event(void)
             const uint64_t pos = cmb_objectqueue_position(W.oq[q], W.oqm[q][i].v);
             if (pos != (uint64_t)first + 1) viol("C12", "position-mismatch", "queue %d: position(%p)=%" PRIu64 ", delivery order says %d", q, W.oqm[q][i].v, pos, first + 1);
         }
+        if (cmb_objectqueue_position(W.oq[q], (void *)(uintptr_t)0x7777770) != 0) viol("C12", "position-mismatch", "queue %d: an object that was never put has a position", q);
     }
     for (int k = 0; k < W.npq; k++) {
         const uint64_t len = cmb_priorityqueue_length(W.pq[k]);
@@ -726,11 +739,20 @@ void mon_after_event(void)
             const uint64_t pos = cmb_priorityqueue_position(W.pq[k], it->handle);
             if (pos != (uint64_t)rank) viol("C12", "position-mismatch", "priority queue %d: position(handle %" PRIu64 ")=%" PRIu64 ", delivery order says %d", k, it->handle, pos, rank);
         }
+        if (cmb_priorityqueue_position(W.pq[k], UINT64_C(0x7ffffffffff0)) != 0) viol("C12", "position-mismatch", "priority queue %d: a handle that was never issued has a position", k);
+        for (int h = 0; h < W.pq_nh[k] && h < 4; h++) {          /* handles of objects already delivered or cancelled */
+            const uint64_t hd = W.pq_handles[k][W.pq_nh[k] - 1 - h];
+            bool queued = false;
+            for (int j = 0; j < W.pqn[k]; j++) if (W.pqm[k][j].handle == hd) queued = true;
+            if (!queued && cmb_priorityqueue_position(W.pq[k], hd) != 0) viol("C12", "position-mismatch", "priority queue %d: handle %" PRIu64 " of an object no longer queued has a position", k, hd);
+        }
     }
 
     /* C09: state of ended processes right after the event in which they ended */
     for (int i = 0; i < W.np; i++) {
         proc *pr = &PR[i];
+        if (pr->started && !pr->finished && pr->ran_this_event && !pr->start_pending && cmb_process_exit_value(pr->pp) != NULL)
+            viol("C09", "exit-value", "process %d has not ended but reports exit value %p", i, cmb_process_exit_value(pr->pp));
         if (!pr->finished || pr->end_seq != ev_seq) continue;
         if (cmb_process_status(pr->pp) != CMB_PROCESS_FINISHED) { viol("C09", "status-not-finished", "process %d ended (%d) but its status is %d", i, pr->endkind, (int)cmb_process_status(pr->pp)); continue; }
         if (cmb_process_exit_value(pr->pp) != pr->exitv) viol("C09", "exit-value", "process %d exit value %p, expected %p", i, cmb_process_exit_value(pr->pp), pr->exitv);
